@@ -33,10 +33,11 @@ ASSUMPTIONS = [
 PRE = "Open Scope string_scope."
 MODS = ["good", "bad", "missing", "syn", "nest"]
 W_NAMES = ["top", "nested1", "nested2", "nested3", "fiber", "try_finally", "catch", "finally", "finally_ret", "classdef",
-           "classdef_nested", "capture", "builtin_in_try", "capture_in_caller_fiber", "fiber_waiting"]
+           "classdef_nested", "capture", "builtin_in_try", "capture_in_caller_fiber", "fiber_waiting", "set_undeclared_global",
+           "set_undeclared_global_nested", "set_undeclared_global_fiber"]
 # families: which later constructs are "of the same kind" as a failing one
 FAM_OF_W = {0: "call", 1: "call", 2: "call", 3: "call", 4: "fiber", 5: "try", 6: "try", 7: "try", 8: "try", 9: "class",
-            10: "class", 11: "capture", 12: "try", 13: "capture", 14: "fiber"}
+            10: "class", 11: "capture", 12: "try", 13: "capture", 14: "fiber", 15: "setglobal", 16: "setglobal", 17: "setglobal"}
 
 
 def z(n):
@@ -52,7 +53,7 @@ def sn_class(c, n): return (4, c, z(n))
 def sn_use(c): return (5, c)
 def sn_syntax(pre): return (6, int(pre))
 def sn_throw(w, d=None): return (7, w) if d is None else (7, w, d[0], z(d[1]))
-SN_TRYFIN, SN_TRYCATCH, SN_FIBEROK, SN_CAPOK, SN_USELEAK, SN_RESET, SN_USEFIBER = (8,), (9,), (10,), (11,), (13,), (16,), (17,)
+SN_TRYFIN, SN_TRYCATCH, SN_FIBEROK, SN_CAPOK, SN_USELEAK, SN_RESET, SN_USEFIBER, SN_PROBETOTAL = (8,), (9,), (10,), (11,), (13,), (16,), (17,), (18,)
 def sn_range(k): return (12, k)
 def sn_import(m): return (14, m)
 def sn_usemod(m): return (15, m)
@@ -68,9 +69,9 @@ def all_snippets():
     for c in (0, 1):
         res += [sn_class(c, 7), sn_use(c)]
     res += [sn_syntax(False), sn_syntax(True)]
-    for w in range(15):
+    for w in range(18):
         res += [sn_throw(w), sn_throw(w, (0, 9))]
-    res += [SN_TRYFIN, SN_TRYCATCH, SN_FIBEROK, SN_CAPOK, SN_USELEAK, SN_USEFIBER, sn_range(1), sn_range(2), sn_range(3)]
+    res += [SN_TRYFIN, SN_TRYCATCH, SN_FIBEROK, SN_CAPOK, SN_USELEAK, SN_USEFIBER, SN_PROBETOTAL, sn_range(1), sn_range(2), sn_range(3)]
     for m in range(5):
         res += [sn_import(m), sn_usemod(m)]
     res.append(SN_RESET)
@@ -105,6 +106,8 @@ def same_kind(fam, s):
         return s in (SN_FIBEROK, SN_USEFIBER) or (s[0] == 7 and s[1] in (4, 14))
     if fam == "capture":
         return s in (SN_USELEAK, SN_CAPOK) or (s[0] == 7 and s[1] in (11, 13))
+    if fam == "setglobal":
+        return s == SN_PROBETOTAL or (s[0] == 7 and FAM_OF_W[s[1]] == "setglobal")
     if fam == "syntax":
         return s[0] == 6
     return False
@@ -139,7 +142,7 @@ def gen_history(rng, pool, maxlen=8):
     if style == "leak":
         h = [rng.choice(defs), sn_throw(rng.choice([11, 13, 13]), rng.choice([None, (0, 4)]))]
         while len(h) < n:
-            h.append(rng.choice([SN_USELEAK, SN_USELEAK, SN_CAPOK, sn_throw(11), sn_throw(13), sn_throw(14), SN_USEFIBER, rng.choice(uses), SN_RESET, rng.choice(pool), sn_range(2)]))
+            h.append(rng.choice([SN_USELEAK, SN_USELEAK, SN_CAPOK, sn_throw(11), sn_throw(13), sn_throw(14), SN_USEFIBER, sn_throw(rng.choice([15, 16, 17])), SN_PROBETOTAL, rng.choice(uses), SN_RESET, rng.choice(pool), sn_range(2)]))
         return h
     if style == "reset":
         h = [rng.choice(pool) for _ in range(rng.randint(1, 4))] + [SN_RESET]
@@ -497,6 +500,75 @@ def parse_ref(v):
     return res
 
 
+# ---- failing statements with a PROVISIONAL side effect (raw sources, implementation-only oracle) ----
+# (name, setup, failing statement, probe).  The Spec: nothing but completed definitions persists, so after
+# setup / <failing statement at some place> / probe the probe must print exactly what it prints after setup / probe.
+SIDEFX = [
+    ("set_undeclared_global", "var q0 = 1;", "total = 41;", "print(total);"),
+    ("set_undeclared_global_expr", "var q0 = 1;", "total2 = q0 + 1;", "print(total2);"),
+    ("set_property_non_instance", "var sp = 5;", "sp.foo = 1;", "print(type(sp)); print(sp); print(sp.foo);"),
+    ("set_property_on_class", "class PC {}", "PC.zz = 1;", "print(PC); print(PC.zz);"),
+    ("set_item_bad_index", "var v = [1, 2];", "v[5] = 9;", "print(v.len()); print(v[0]); print(v[1]);"),
+    ("set_item_negative_index", "var v = [1, 2];", "v[-7] = 9;", "print(v.len()); print(v[0]); print(v[1]);"),
+    ("set_item_non_vec", "var t = (1, 2);", "t[0] = 9;", "print(t.len()); print(t[0]);"),
+    ("set_item_bad_index_type", "var v = [1, 2];", "v[\"a\"] = 9;", "print(v.len()); print(v[0]);"),
+    ("map_insert_unhashable", "var hm = {1: 2};", "hm.insert([1], 3);", "print(hm.len()); print(hm.has_key(1)); print(hm.get(1));"),
+    ("map_literal_unhashable_after_entries", "var q0 = 1;", "var ml = {1: 2, 3: 4, [1]: 5};", "print(ml);"),
+    ("map_literal_assigned", "var hm = {1: 2};", "hm = {7: 8, [1]: 5};", "print(hm.len()); print(hm.has_key(1)); print(hm.has_key(7));"),
+    ("vec_literal_failing_element", "var v = [1, 2];", "v = [3, 4, nil.foo];", "print(v.len()); print(v[0]);"),
+    ("inherit_non_class", "var q0 = 1;", "#[derive(q0)] class DX { fn m(self) { return 1; } }", "print(type(q0)); print(q0);"),
+    ("inherit_then_class_again", "#[constructor(new)] class DY { fn m(self) { return 1; } }", "#[derive(print)] class DZ { fn m(self) { return 2; } }",
+     "print(DY.new().m()); #[constructor(new)] class DW { fn k(self) { return 3; } } print(DW.new().k());"),
+    ("field_set_then_fail", "#[constructor(new)] class FC {} var fi = FC.new(); fi.a = 1;", "fi.a = nil.foo;", "print(fi.a);"),
+    ("compound_assign_undeclared", "var q0 = 1;", "total3 += 1;", "print(total3);"),
+    ("upvalue_assign_then_fail", "var q0 = 1;", "(|| { var x = 1; var f = || { x = 2; total4 = x; }; f(); })();", "print(total4);"),
+    ("import_alias_failing", "var q0 = 1;", "import \"bad\" as mbx;", "print(mbx);"),
+    ("string_index_assign", "var st = \"abc\";", "st[0] = \"z\";", "print(st);"),
+]
+SIDEFX_PLACES = [("top", "%s"), ("nested_call", "(|| { %s })();"), ("fiber", "Fiber.new(|| { %s }).call();"),
+                 ("in_try_finally", "try { %s } finally { print(\"fin\"); }"), ("method", "#[constructor(new)] class PL { fn go(self) { %s } } PL.new().go();")]
+
+
+def sidefx_histories():
+    """(label, [setup, failing, probe, probe-again])"""
+    res = []
+    for name, setup, fail, probe in SIDEFX:
+        for pname, wrap in SIDEFX_PLACES:
+            if pname != "top" and (fail.startswith(("var ", "#[", "import ")) and pname in ("method",)):
+                continue   # declarations inside a method body would be locals / not allowed
+            if pname != "top" and fail.startswith("var "):
+                continue   # `var` inside a function declares a local: a different statement
+            res.append(("%s@%s" % (name, pname), [setup, wrap % fail, probe, probe]))
+    return res
+
+
+def run_raw(binary, histories, mods_items):
+    lines = ["replmods - %s %s" % (mods_items, " ".join(hx(x) for x in h)) for h in histories]
+    return [impl_records(r) for r in yvlib.run_harness(binary, lines, quarantine=True, case_timeout_ms=10000)]
+
+
+def sidefx_check(ctx, binary, profile, mods_items, only=None):
+    """a failing statement with a provisional side effect must leave NOTHING: the probe after it behaves as without it"""
+    cases = [c for c in sidefx_histories() if only is None or c[1] == only]
+    if only is not None and not cases:
+        cases = [("replay", only)]
+    with_fail = run_raw(binary, [c[1] for c in cases], mods_items)
+    without = run_raw(binary, [[c[1][0]] + c[1][2:] for c in cases], mods_items)
+    n = nfailing = 0
+    for (label, h), a, b in zip(cases, with_fail, without):
+        n += 1
+        if len(a) < 2 or not (a[1]["res"] or "").startswith("err"):
+            # the statement did not fail where it was put (e.g. a construct the language accepts there): nothing to compare
+            continue
+        nfailing += 1
+        got = [fmt_obs(r) for r in a[2:]]
+        want = [fmt_obs(r) for r in b[1:]]
+        if got != want:
+            ctx.violation("a statement that failed (%s) left a side effect that a later snippet observes [%s build]" % (label, profile),
+                          input=h, raw=h, profile=profile, expected=[readable(x) for x in want], actual=[readable(x) for x in got])
+    return n, nfailing
+
+
 def nontrivial(h, m, irs):
     """>= 1 failing snippet followed by >= 1 snippet that uses a definition made BEFORE the failure and by a construct of the
     same kind as the one that failed (measured on the implementation's own outcomes)"""
@@ -563,6 +635,12 @@ def run(ctx):
     if not load_msg_table():
         ctx.corr_broken.append("ReuseSpec.show_msg_table could not be evaluated")
         return
+    if ctx.replay_only and "raw" in ctx.replay_only:
+        mods_items = " ".join("%s=%s" % (hx(n), hx(s)) for n, s in zip(["good", "bad", "syn", "nest"], MOD_SRC))
+        sidefx_check(ctx, bins[ctx.replay_only.get("profile", "debug")], ctx.replay_only.get("profile", "debug"), mods_items,
+                     only=ctx.replay_only["raw"])
+        ctx.cov.update({"evaluations": 2, "distinct_nontrivial": 1, "rule": "replay of one raw side-effect history", "samples": [ctx.replay_only["raw"]]})
+        return
     if ctx.replay_only:
         hists = [[tuple(int(x) for x in g.split(" ")) for g in ctx.replay_only["wire"].split(";")]]
     else:
@@ -592,7 +670,12 @@ def run(ctx):
     nontriv = set()
     meta = fresh = ref = 0
     impl_by_profile = {}
+    sfx = sfx_failing = 0
     for profile, binary in bins.items():
+        if not ctx.replay_only:
+            a, b = sidefx_check(ctx, binary, profile, mods_items)
+            sfx += 2 * a
+            sfx_failing += b
         impl = check_histories(ctx, hists, binary, profile, core, mods_items, models)
         impl_by_profile[profile] = impl
         for h, m, irs in zip(hists, models, impl):
@@ -657,7 +740,7 @@ def run(ctx):
     for h in hists:
         for s in h:
             key = {0: "var", 1: "print", 2: "fn", 3: "call", 4: "class", 5: "use_class", 6: "compile_error", 8: "try_finally_ok",
-                   9: "try_catch_ok", 10: "fiber_ok", 11: "capture_ok", 12: "range", 13: "use_closure", 16: "RESET", 17: "use_fiber"}.get(s[0])
+                   9: "try_catch_ok", 10: "fiber_ok", 11: "capture_ok", 12: "range", 13: "use_closure", 16: "RESET", 17: "use_fiber", 18: "probe_undeclared_global"}.get(s[0])
             if s[0] == 7:
                 key = "uncaught:" + W_NAMES[s[1]]
             elif s[0] == 14:
@@ -668,9 +751,11 @@ def run(ctx):
     nsn = sum(len(h) for h in hists)
     m0 = next(m for m in models if m)
     ctx.cov.update({
-        "evaluations": len(hists) * 2 + meta + fresh + ref,
+        "evaluations": len(hists) * 2 + meta + fresh + ref + sfx,
+        "side_effect_histories": sfx, "side_effect_histories_failing_as_intended": sfx_failing,
+        "side_effect_kinds": [c[0] for c in SIDEFX],
         "distinct_nontrivial": len(nontriv),
-        "rule": "histories of <= 9 snippets of the mini-language ReplLang.v (definitions, uses, compile errors, uncaught errors from 15 places, "
+        "rule": "histories of <= 9 snippets of the mini-language ReplLang.v (definitions, uses, compile errors, uncaught errors from 18 places, "
                 "try/finally and fibers that complete, imports of a good/throwing/missing/uncompilable/nested module, RESET): every "
                 "(failing snippet, any snippet) pair alone and after a block of definitions, plus random histories in 6 styles; each history "
                 "runs on ONE Vm in the debug and the release build. non-trivial = the history contains a snippet that fails ON THE "
